@@ -100,6 +100,8 @@ func (w *World) Exec(ix int, in Intent) {
 		w.doExportImport(in)
 	case "logic_call":
 		w.doLogicCall(in)
+	case "settle":
+		w.settle(in.N)
 	default:
 		panic(fmt.Sprintf("unknown intent %q", in.T))
 	}
